@@ -825,16 +825,22 @@ class SubprocSpec:
             raise xt.XonshError("xonsh: subprocess mode: command is empty")
         # modifications that do not alter cmds may come before creating instance
         spec = kls(cmd, cls=cls, **kwargs)
-        # modifications that alter cmds must come after creating instance
-        spec.resolve_decorators()  # keep this first
-        spec.resolve_args_list()
-        spec.resolve_redirects()
-        spec.resolve_alias()
-        spec.resolve_binary_loc()
-        spec.resolve_auto_cd()
-        spec.resolve_executable_commands()
-        spec.resolve_alias_cls()
-        spec.resolve_stack()
+        try:
+            # modifications that alter cmds must come after creating instance
+            spec.resolve_decorators()  # keep this first
+            spec.resolve_args_list()
+            spec.resolve_redirects()
+            spec.resolve_alias()
+            spec.resolve_binary_loc()
+            spec.resolve_auto_cd()
+            spec.resolve_executable_commands()
+            spec.resolve_alias_cls()
+            spec.resolve_stack()
+        except BaseException:
+            # the caller does not have this spec yet: redirect files it
+            # already opened would stay open until the exception is dropped
+            spec.close()
+            raise
         return spec
 
     def add_decorator(self, mod: DecoratorAlias):
@@ -1284,26 +1290,31 @@ def cmds_to_specs(cmds, captured=False, envs=None, in_boolop=False):
                 # these should remain integer file descriptors, and not Python
                 # file objects since they connect processes.
                 pipe = PipeChannel.from_pipe()
-                upstream = specs[i]
-                # `e>p` adds stderr to the pipe; stdout still goes through the
-                # pipe by default, unless the user diverted it with `o>`/`>`.
-                if upstream._stderr is _PIPE_ERR:
-                    upstream._stderr = None
-                    upstream.stderr = pipe.write_fd
-                    # Skip wiring stdout if it is already redirected elsewhere
-                    # (e.g. `cmd o> file e>p | grep` — stdout to file, pipe gets
-                    # only stderr).
-                    skip_stdout = upstream._stdout is not None
-                else:
-                    skip_stdout = False
-                # `a>p`: stdout goes to the pipe and stderr is merged into it
-                # (stderr was already set to subprocess.STDOUT by _redirect_streams).
-                if upstream._stdout is _PIPE_ALL:
-                    upstream._stdout = None
-                if not skip_stdout:
-                    upstream.stdout = pipe.write_fd
-                specs[i + 1].stdin = pipe.read_fd
-                upstream.pipe_channels.append(pipe)
+                try:
+                    upstream = specs[i]
+                    # `e>p` adds stderr to the pipe; stdout still goes through the
+                    # pipe by default, unless the user diverted it with `o>`/`>`.
+                    if upstream._stderr is _PIPE_ERR:
+                        upstream._stderr = None
+                        upstream.stderr = pipe.write_fd
+                        # Skip wiring stdout if it is already redirected elsewhere
+                        # (e.g. `cmd o> file e>p | grep` — stdout to file, pipe gets
+                        # only stderr).
+                        skip_stdout = upstream._stdout is not None
+                    else:
+                        skip_stdout = False
+                    # `a>p`: stdout goes to the pipe and stderr is merged into it
+                    # (stderr was already set to subprocess.STDOUT by _redirect_streams).
+                    if upstream._stdout is _PIPE_ALL:
+                        upstream._stdout = None
+                    if not skip_stdout:
+                        upstream.stdout = pipe.write_fd
+                    specs[i + 1].stdin = pipe.read_fd
+                    upstream.pipe_channels.append(pipe)
+                except BaseException:
+                    # not in anybody's pipe_channels yet: nobody else closes it
+                    pipe.close()
+                    raise
             elif redirect == "&" and i == len(redirects) - 1:
                 specs[i].background = True
             else:
